@@ -1747,6 +1747,31 @@ def eval_local_client(ctx):
         out["status"] = Ellipsis
     out["status_sent"] = list(sent)
     out["status_io"] = list(flushed)
+    # round trips of the id submit_target handed back for the pool's task 55 (whatever its type on gwf's side): as a prerequisite, to cancel_job, in a state query
+    X = out["submit"]
+    out["roundtrip"] = {}
+    if not (isinstance(X, str) and X.startswith("<")):
+        del sent[:], flushed[:]
+        answers.append(_json.dumps({"__kind__": "task_enqueued", "tid": 56}) + "\n")
+        try:
+            interp.call(idx.method(ops_ci, "submit_target"), (target_obj(ctx, name="N2", spec="S", working_dir="/w"), [X]), {}, self_obj=ops)
+            out["roundtrip"]["deps"] = [m_[1].get("deps") for m_ in sent if m_[0] == "enqueue_task"]
+        except (Raised, Unsupported) as exc:
+            out["roundtrip"]["deps"] = f"<{type(exc).__name__}: {exc}>"
+        del sent[:], flushed[:]
+        try:
+            interp.call(idx.method(ops_ci, "cancel_job"), (X,), {}, self_obj=ops)
+            out["roundtrip"]["cancel"] = [m_[1].get("tid") for m_ in sent if m_[0] == "cancel_task"]
+        except (Raised, Unsupported) as exc:
+            out["roundtrip"]["cancel"] = f"<{type(exc).__name__}: {exc}>"
+        del sent[:], flushed[:]
+        answers.append(_json.dumps({"__kind__": "task_states", "tasks": {"55": "RUNNING", "56": "FAILED"}}) + "\n")
+        gjs = idx.method(ops_ci, "get_job_states")
+        try:
+            st = interp.call(gjs, ([X],), {}, self_obj=ops) if gjs is not None else Ellipsis
+            out["roundtrip"]["states"] = st
+        except (Raised, Unsupported) as exc:
+            out["roundtrip"]["states"] = f"<{type(exc).__name__}: {exc}>"
     return out
 
 
@@ -1761,8 +1786,22 @@ def local_client_witness(ctx):
     if len(ss) != 1 or ss[0][0] != "enqueue_task" or {k: v for k, v in ss[0][1].items() if k != "time_limit"} != want or ss[0][1].get("time_limit") is not None:
         diffs.append(f"submitting target N with prerequisites [0, 3] (the pool numbers its tasks from 0) sends {ss}; expected one enqueue_task carrying name, script, "
                      "working_dir and deps=[0, 3]: a dropped id lets the task start before that prerequisite finished")
-    if out["submit"] != 55:
-        diffs.append(f"the pool answers task_enqueued tid=55 but submit_target returns {out['submit']!r}: a wrong id would be tracked for the target")
+    X = out["submit"]
+    if isinstance(X, str) and X.startswith("<"):
+        diffs.append(f"the pool answers task_enqueued tid=55 but submit_target ends with {X}")
+    else:
+        rt = out.get("roundtrip") or {}
+        # the id is opaque on gwf's side (55, "55" ...): what matters is that it names the pool's task 55 wherever gwf hands it back
+        if rt.get("deps") != [[55]]:
+            diffs.append(f"the pool answers task_enqueued tid=55 and submit_target returns {X!r}; given back as a prerequisite it is sent as deps={rt.get('deps')}, expected [55] (the pool "
+                         "looks prerequisites up by its own integer ids): the dependent does not wait for task 55")
+        if rt.get("cancel") != [55]:
+            diffs.append(f"the pool answers task_enqueued tid=55 and submit_target returns {X!r}; cancel_job({X!r}) sends cancel_task with tid={rt.get('cancel')}, expected 55 as the pool "
+                         "numbers it (an id of another type is not found in the pool's tables: the request fails in the pool and nothing is cancelled)")
+        stt = rt.get("states")
+        if stt is not Ellipsis and not (isinstance(stt, dict) and len(stt) == 1 and list(stt.values())[0] == EnumVal("gwf.backends.base.BackendStatus", "RUNNING")):
+            diffs.append(f"the pool answers task_enqueued tid=55 and submit_target returns {X!r}; with the pool reporting task 55 RUNNING, get_job_states([{X!r}]) gives {stt}: the "
+                         "target's state is not the state of its own task")
     if out.get("submit0") is not Ellipsis and not (out.get("submit0") == 0 and out.get("submit0") is not False):
         diffs.append(f"the pool answers task_enqueued tid=0 (the first task of a fresh pool) but submit_target returns {out.get('submit0')!r}: the pool accepted and runs the task, "
                      "gwf treats the submission as failed/untracked and the next run enqueues the target a second time")
